@@ -1,0 +1,20 @@
+//go:build verif
+
+// Verification hooks (read-only): compiled only with -tags verif.
+
+package obfs4
+
+import (
+	"gitlab.com/yawning/obfs4.git/common/replayfilter"
+	"gitlab.com/yawning/obfs4.git/transports/base"
+)
+
+// VerifServerFactoryState returns the per-bridge close delay (seconds) and the replay filter
+// of a server factory created by this package (ok = false for any other factory).
+func VerifServerFactoryState(sf base.ServerFactory) (closeDelay int, filter *replayfilter.ReplayFilter, ok bool) {
+	f, isOurs := sf.(*obfs4ServerFactory)
+	if !isOurs {
+		return 0, nil, false
+	}
+	return f.closeDelay, f.replayFilter, true
+}
